@@ -9,7 +9,7 @@ func init() {
 	register(&propDef{
 		id: "C18", title: "Undeliverable messages surface as dead letters exactly once",
 		technique: "drop-path discipline over the CFG (every failure exit passes exactly one dead-letter publication unless it is a documented no-information exit), loop-shape rule for batch failures, field-coverage rule on the Deadletter literal, same-path rule for counter and event",
-		explanation: "Decides: (1) deliverRemoteTellMessage: every exit other than a successful dispatch passes deadLetterRemoteMessage, except the two documented no-information exits (payload cannot be decoded; receiver address cannot be parsed), and no path publishes twice; (2) the local drop paths: doReceive routes a rejected enqueue and a stopping system to handleReceivedError and never also enqueues (C02/C17), Unhandled reaches handleReceivedError exactly once, handleReceivedErrorWithMessage forwards everything except the three recursion-guard message types to toDeadletter exactly once; (3) a failed coalesced batch yields one dead-letter publication per message of the batch (loop over the batch, one call per element, skipped only when that element cannot be decoded); (4) the dead-letter actor increments its counter and publishes the event on the same path, once per SendDeadletter; (5) every construction of the Deadletter payload sets Sender, Receiver, Message, Reason and SendTime. Added after seed C18a: each dead letter of a failed coalesced batch carries the sender and receiver derived from its own message inside the iteration.",
+		explanation: "Decides: (1) deliverRemoteTellMessage: every exit other than a successful dispatch passes deadLetterRemoteMessage, except the two documented no-information exits (payload cannot be decoded; receiver address cannot be parsed), and no path publishes twice; (2) the local drop paths: doReceive routes a rejected enqueue and a stopping system to handleReceivedError and never also enqueues (C02/C17), Unhandled reaches handleReceivedError exactly once, handleReceivedErrorWithMessage forwards everything except the three recursion-guard message types to toDeadletter exactly once; (3) a failed coalesced batch yields one dead-letter publication per message of the batch (loop over the batch, one call per element, skipped only when that element cannot be decoded); (4) the dead-letter actor increments its counter and publishes the event on the same path, once per SendDeadletter; (5) every construction of the Deadletter payload sets Sender, Receiver, Message, Reason and SendTime. Added after seed C18a: each dead letter of a failed coalesced batch carries the sender and receiver derived from its own message inside the iteration. Added after seed C18b: deliverRemoteTellMessage hands the message to its target only over the edge on which the target's IsRunning() (the full liveness predicate) was true.",
 		assumptions: []string{"count equality under concurrent traffic and a full fan-out queue (enqueueCoalescedFailure drops the hand-off when its queue is full or the system is shutting down: logged, not dead-lettered)", "a missing event stream or dead-letter actor (system not fully started) drops silently by design"},
 		minObl:     14,
 		run:        runC18,
